@@ -1482,6 +1482,83 @@ pub struct C08Cfg {
     pub third_node: bool,
 }
 
+/// Recorded defects that a kill of the follower inside an InstallSnapshot transfer can expose (each with the evidence that
+/// tells it apart): (a) the follower had answered a data chunk whose bytes had not reached the OS when it was killed - no
+/// non-empty snapshot file existed at the kill; (b) the follower had completed the installation when it was killed, the
+/// leader never saw the answer and sends the final (empty, done) chunk again, and the restarted follower - whose raft core has
+/// no transfer in progress - accepts it as a complete new snapshot: an empty snapshot file with an id above every snapshot
+/// file that existed at the kill. Returns (clause suffix, text).
+fn kill_in_transfer_finding(cfg: &C08Cfg, root: &str) -> Option<(&'static str, String)> {
+    if cfg.kill_on_snapshot_msg == 0 || !msg_trigger_fired() {
+        return None;
+    }
+    let at_kill = msg_trigger_files_at_kill();
+    let snap_id = |n: &str| n.strip_prefix("snapshot_").and_then(|x| x.parse::<u64>().ok());
+    let max_nonempty_at_kill = at_kill.iter().filter(|(n, l)| *l > 0).filter_map(|(n, _)| snap_id(n)).max();
+    let now: Vec<(String, u64)> = tokio::fs::list_files(&format!("{}/n2/", root)).iter().map(|(n, l)| (n.rsplit('/').next().unwrap_or("").to_string(), *l as u64)).collect();
+    if cfg.kill_after_handling && max_nonempty_at_kill.is_none() {
+        return Some(("snapshot_chunk_acked_before_durable", format!("the follower was killed right after it had answered an InstallSnapshot chunk whose bytes had not reached the OS (files at the kill: {:?}); the leader went on with the next chunk and the restarted follower completed the transfer without the lost bytes (files now: {:?})", at_kill, now)));
+    }
+    if let Some(k) = max_nonempty_at_kill {
+        if let Some((n, _)) = now.iter().find(|(n, l)| *l == 0 && snap_id(n).map(|j| j > k).unwrap_or(false)) {
+            return Some(("repeated_final_chunk_installs_empty_snapshot", format!("the follower was killed after it had received the whole snapshot (files at the kill: {:?}); the leader, which never saw the answer, sent the final empty chunk again and the restarted follower installed it as a complete snapshot: {} has 0 bytes (files now: {:?})", at_kill, n, now)));
+        }
+    }
+    None
+}
+
+/// Observation with repeated history entries (same id and content twice in one key's history) removed, and the raw
+/// config records of those keys left out. Returns the keys that had repetitions.
+fn without_repeated_history(o: &Obs) -> (Obs, Vec<String>) {
+    let mut o = o.clone();
+    let mut keys = vec![];
+    for (k, h) in o.hist.iter_mut() {
+        let mut seen = std::collections::BTreeSet::new();
+        let before = h.len();
+        h.retain(|e| seen.insert((e.0, e.1.clone())));
+        if h.len() != before {
+            keys.push(k.clone());
+        }
+    }
+    (o, keys)
+}
+
+/// What the follower serves beyond what the leader serves, when that is the ONLY difference: records, config keys,
+/// namespaces, users and listing entries whose identity the leader does not have at all. None when anything else differs.
+fn stale_extras(leader: &Obs, follower: &Obs) -> Option<Vec<String>> {
+    let mut f = follower.clone();
+    let mut extras = vec![];
+    let lkeys: std::collections::BTreeSet<(String, Vec<u8>)> = leader.records.iter().map(|r| (r.0.clone(), r.1.clone())).collect();
+    f.records.retain(|r| {
+        let keep = lkeys.contains(&(r.0.clone(), r.1.clone()));
+        if !keep {
+            extras.push(format!("{}/{}", r.0, String::from_utf8_lossy(&r.1)));
+        }
+        keep
+    });
+    let stale_cfg: Vec<String> = f.cfg.iter().filter(|(k, v)| v.is_some() && leader.cfg.get(*k).map(|lv| lv.is_none()).unwrap_or(true)).map(|(k, _)| k.clone()).collect();
+    for k in stale_cfg {
+        extras.push(format!("config {}", k));
+        f.cfg.insert(k.clone(), None);
+        match leader.hist.get(&k) {
+            Some(h) => {
+                f.hist.insert(k.clone(), h.clone());
+            }
+            None => {
+                f.hist.remove(&k);
+            }
+        }
+    }
+    f.ns.retain(|x| leader.ns.iter().any(|l| l.0 == x.0));
+    f.users.retain(|x| leader.users.iter().any(|l| l.0 == x.0));
+    f.listing.retain(|x| leader.listing.contains(x));
+    if f == *leader && !extras.is_empty() {
+        Some(extras)
+    } else {
+        None
+    }
+}
+
 /// Signature of a recorded defect of the dependency's replication stream (C08.replication_stuck_below_compacted_log): the
 /// follower's log has not moved for 10 simulated s although the leader is well ahead, and the leader no longer holds the
 /// entry the follower needs next (its log was compacted past it) - `get_log_entries` answers the compacted range with an
@@ -1639,6 +1716,7 @@ pub async fn exec_c08(script: Value) -> ExecResult {
         let mut ok = false;
         let mut last = String::new();
         let mut obs_l = observe(&n1, "L").await.map_err(|e| Violation::new(&format!("{}.observe_failed", id), e.to_string()))?;
+        let mut last_f: Option<Obs> = None;
         for _ in 0..60 {
             advance(1_000).await;
             let n2 = match node(2) {
@@ -1657,6 +1735,7 @@ pub async fn exec_c08(script: Value) -> ExecResult {
                 break;
             }
             last = obs_diff(&obs_l, &obs_f);
+            last_f = Some(obs_f);
         }
         // the background client's key is exempt from the model (whatever the leader serves is the model)
         {
@@ -1673,8 +1752,13 @@ pub async fn exec_c08(script: Value) -> ExecResult {
             }
         }
         check_cfg_model(id, &obs_l, &m, "leader")?;
+        // (the follower's own compaction gives it a snapshot as well: what counts is a transfer from the leader)
+        installed = installed && sim::counter("net.snapshot_chunks_to_n2") > 0;
         if installed {
             sim::count("probe.snapshot_installed_on_follower", 1);
+            if cfg.scenario == 1 {
+                sim::count("probe.snapshot_installed_on_follower_with_state", 1);
+            }
         }
         let n2 = node(2).ok_or_else(|| Violation::new("harness.node", "follower missing"))?;
         let m2 = metrics(&n2);
@@ -1688,19 +1772,41 @@ pub async fn exec_c08(script: Value) -> ExecResult {
                 return Ok(());
             }
         }
+        // a kill right after the follower answered a snapshot chunk, while the chunk's bytes had not reached the OS: the resumed
+        // transfer then completes a snapshot without them (recorded defect: the chunk is acknowledged before it is durable)
+        // the snapshot header's index is taken while later applies are in flight (recorded defect F12, see C01): the follower
+        // then applies, on top of the installed snapshot, entries whose effect the snapshot already contains - seen as
+        // history entries that occur twice. Compared without them.
+        let repeated = |l: &Obs, f: &Obs| -> Option<Vec<String>> {
+            let (f2, keys) = without_repeated_history(f);
+            if keys.is_empty() {
+                return None;
+            }
+            let mut l2 = l.clone();
+            let mut f2 = f2;
+            l2.records.retain(|r| r.0 != "T_CONFIG");
+            f2.records.retain(|r| r.0 != "T_CONFIG");
+            if l2 == f2 { Some(keys) } else { None }
+        };
         if !ok {
             let state = format!("leader: last_log={} applied={} snapshot(before connect)={}; follower: {:?} last_log={} applied={} members={:?}", m1.last_log_index, m1.last_applied, snap_before, m2.state, m2.last_log_index, m2.last_applied, m2.membership_config.members);
-            // (async-raft refreshes a follower's metrics only with the next entries it receives: in a quiet cluster they still
-            // show the state before the install, so the installed snapshot's index counts as well)
-            let f_snap_index = n2.app.raft_store.get_current_snapshot().await.map(|s| s.map(|s| s.index).unwrap_or(0)).unwrap_or(0);
-            if installed && (m2.last_applied >= m1.last_applied.saturating_sub(2) || (f_snap_index > 0 && f_snap_index >= snap_before)) {
-                // root-cause signature of a recorded defect: raft state caught up through a snapshot, data not loaded
-                sim::count("probe.installed_snapshot_not_loaded", 1);
-                findings.push(Violation::new(&format!("{}.installed_snapshot_not_loaded", id), format!("60 simulated s after it was connected the follower has installed the leader's snapshot and reports the leader's log applied, but does not serve the data contained in the snapshot: {} [[{}]]", last, state)));
+            let files = tokio::fs::list_files(&format!("{}/n2/", root));
+            let files: Vec<(String, u64)> = files.iter().map(|(n, l)| (n.rsplit('/').next().unwrap_or("").to_string(), *l as u64)).collect();
+            let extras = last_f.as_ref().and_then(|f| stale_extras(&obs_l, f));
+            if let (Some(extras), true) = (&extras, cfg.scenario == 1) {
+                // recorded defect: installing a snapshot adds and overwrites, it does not remove what the snapshot does not contain
+                sim::count("probe.removed_key_survives_snapshot_install", 1);
+                findings.push(Violation::new(&format!("{}.removed_key_survives_snapshot_install", id), format!("60 simulated s after it was reconnected the follower serves everything the leader serves, and in addition what was removed on the leader while it was away ({}): installing a snapshot does not remove entries the snapshot no longer contains [[{}]]", extras.join(", "), state)));
+            } else if let Some(keys) = last_f.as_ref().and_then(|f| repeated(&obs_l, f)) {
+                sim::count("probe.installed_snapshot_older_header", 1);
+                findings.push(Violation::new(&format!("{}.entries_applied_on_top_of_snapshot_that_contains_them", id), format!("the follower serves the leader's data except that the change history of {:?} holds entries twice: the installed snapshot already contained the effect of entries above its header index, and the follower applied them again [[{}]]", keys, state)));
+            } else if let Some((cl, text)) = kill_in_transfer_finding(&cfg, &root) {
+                sim::count(&format!("probe.{}", cl), 1);
+                findings.push(Violation::new(&format!("{}.{}", id, cl), format!("{}; 60 s after the transfer it serves: {} [[{}]]", text, last, state)));
+                return Ok(());
             } else {
-                let files = tokio::fs::list_files(&format!("{}/n2/", root));
                 let fsnap = n2.app.raft_store.get_current_snapshot().await.map(|s| s.map(|s| (s.index, s.term))).unwrap_or(None);
-                vfail!(&format!("{}.follower_not_caught_up", id), "60 simulated s after it was connected the follower does not serve what the leader serves: {} [[{}; follower snapshot={:?} files={:?}]]", last, state, fsnap, files.iter().map(|(n, l)| (n.rsplit('/').next().unwrap_or("").to_string(), *l)).collect::<Vec<_>>());
+                vfail!(&format!("{}.follower_not_caught_up", id), "60 simulated s after it was connected the follower does not serve what the leader serves: {} [[{}; follower snapshot={:?} files={:?}]]", last, state, fsnap, files);
             }
         }
         // membership as recorded by the leader
@@ -1740,6 +1846,8 @@ pub async fn exec_c08(script: Value) -> ExecResult {
             let n2 = start_node(&root, 2, false, Some(1), &cfg.base.node).await.map_err(|e| Violation::new(&format!("{}.restart_failed", id), e.to_string()))?;
             let mut ok2 = false;
             let mut last2 = String::new();
+            let mut last2_f: Option<Obs> = None;
+            let mut last2_l: Obs = obs_l.clone();
             for _ in 0..60 {
                 advance(1_000).await;
                 let obs_l = observe(&n1, "L").await.map_err(|e| Violation::new(&format!("{}.observe_failed", id), e.to_string()))?;
@@ -1750,6 +1858,8 @@ pub async fn exec_c08(script: Value) -> ExecResult {
                     break;
                 }
                 last2 = obs_diff(&obs_l, &obs_f);
+                last2_f = Some(obs_f);
+                last2_l = obs_l;
             }
             if !ok2 {
                 let mut dbg = String::new();
@@ -1774,40 +1884,25 @@ pub async fn exec_c08(script: Value) -> ExecResult {
                     }
                 }
                 let m2 = metrics(&n2);
-                // Is the snapshot the follower restarted from the one it installed, or one it built itself from the state it
-                // had (without the installed data)? An installed one has the same records as the leader's snapshot of the same
-                // index: then the restart must serve its data and nothing is tolerated.
-                let mut snaps: BTreeMap<(String, u64), Vec<String>> = BTreeMap::new();
-                for nn in ["n1", "n2"] {
-                    for (name, _) in tokio::fs::list_files(&format!("{}/{}/", root, nn)) {
-                        if name.contains("snapshot_") {
-                            if let Ok(mut rd) = rnacos::raft::filestore::raftsnapshot::SnapshotReader::init(&format!("{}/{}.e{}/{}", root, nn, tokio::fs::current_epoch(nn), name.rsplit('/').next().unwrap_or(""))).await {
-                                let idx = rd.get_header().last_index;
-                                let mut keys = vec![];
-                                while let Ok(Some(r)) = rd.read_record().await {
-                                    keys.push(format!("{}/{}", r.tree, String::from_utf8_lossy(&r.key)));
-                                }
-                                keys.sort();
-                                snaps.insert((nn.to_string(), idx), keys);
-                            }
-                        }
+                // what may remain after the restart: the recorded defects seen before it (entries removed on the leader while the
+                // follower was away survive the install - and the follower's own later compaction; a chunk lost by the kill)
+                if let (Some(extras), true) = (last2_f.as_ref().and_then(|f| stale_extras(&last2_l, f)), cfg.scenario == 1) {
+                    sim::count("probe.removed_key_survives_snapshot_install", 1);
+                    if !findings.iter().any(|f| f.clause.ends_with("removed_key_survives_snapshot_install")) {
+                        findings.push(Violation::new(&format!("{}.removed_key_survives_snapshot_install", id), format!("after its restart the follower still serves what was removed on the leader while it was away ({}): the snapshot install did not remove it and the follower's own compaction kept it [[follower last_log={} applied={};{}]]", extras.join(", "), m2.last_log_index, m2.last_applied, dbg)));
                     }
+                    return Ok(());
                 }
-                let newest_f = snaps.iter().filter(|(k, _)| k.0 == "n2").map(|(k, v)| (k.1, v.clone())).max_by_key(|x| x.0);
-                let restarted_from_installed = match &newest_f {
-                    Some((idx, keys)) => snaps.get(&("n1".to_string(), *idx)).map(|lk| lk == keys).unwrap_or(false),
-                    None => false,
-                };
-                if restarted_from_installed {
-                    sim::count("probe.restart_from_installed_snapshot_checked", 1);
-                }
-                if installed && !restarted_from_installed {
-                    // consequence of the recorded defect: the follower never loaded the installed snapshot's data,
-                    // compacted its own incomplete state later, and restarts from that
-                    sim::count("probe.installed_snapshot_not_loaded_permanent", 1);
-                    if findings.is_empty() {
-                        findings.push(Violation::new(&format!("{}.installed_snapshot_not_loaded", id), format!("the follower installed the leader's snapshot but did not load its data; after its own later compaction and a restart the data is still missing: {} [[follower last_log={} applied={};{}]]", last2, m2.last_log_index, m2.last_applied, dbg)));
+                if let Some(keys) = last2_f.as_ref().and_then(|f| repeated(&last2_l, f)) {
+                    sim::count("probe.installed_snapshot_older_header", 1);
+                    if !findings.iter().any(|f| f.clause.ends_with("entries_applied_on_top_of_snapshot_that_contains_them")) {
+                        findings.push(Violation::new(&format!("{}.entries_applied_on_top_of_snapshot_that_contains_them", id), format!("after its restart the follower serves the leader's data except that the change history of {:?} holds entries twice (snapshot header index older than the snapshot's content, entries replayed on top) [[follower last_log={} applied={}]]", keys, m2.last_log_index, m2.last_applied)));
                     }
+                    return Ok(());
+                }
+                if let Some((cl, text)) = kill_in_transfer_finding(&cfg, &root) {
+                    sim::count(&format!("probe.{}", cl), 1);
+                    findings.push(Violation::new(&format!("{}.{}", id, cl), format!("{}; after another restart it serves: {} [[follower last_log={} applied={};{}]]", text, last2, m2.last_log_index, m2.last_applied, dbg)));
                     return Ok(());
                 }
                 vfail!(&format!("{}.differs_after_follower_restart", id), "60 simulated s after its restart the follower does not serve what the leader serves: {} [[follower last_log={} applied={};{}]]", last2, m2.last_log_index, m2.last_applied, dbg);
@@ -1873,9 +1968,13 @@ impl Check for C08 {
         cfg.scenario = rng.below(2) as u8;
         cfg.kill = rng.chance(0.5);
         cfg.restart_follower_at_end = rng.chance(0.6);
-        cfg.quiet = Rng::derive(seed, "C08.quiet", 0).chance(0.3);
+        cfg.quiet = Rng::derive(seed, "C08.quiet", 0).chance(0.4);
+        // kill inside the transfer: in quiet clusters only. With writes going on, the leader compacts again while the follower
+        // is away and the dependency's replication stream then sends entries above a gap (see DESIGN.md 8.4): the follower's
+        // raft core stops on the storage error or applies entries its log refused, which cannot be told apart from a defect
+        // of the product by evidence. The quiet cluster isolates the product's own part: file handling, catalogue, load.
         let mut rk = Rng::derive(seed, "C08.killmsg", 0);
-        if rk.chance(0.3) {
+        if cfg.quiet && rk.chance(0.6) {
             cfg.kill_on_snapshot_msg = rk.range(1, 3);
             cfg.kill_after_handling = rk.chance(0.6);
             cfg.restart_delay_ms = *rk.pick(&[0u64, 100, 1500, 6000]);
@@ -1888,6 +1987,16 @@ impl Check for C08 {
         let w = [50u32, 8, 8, 4, 3, 0, 0, 0, 0];
         for _ in 0..n {
             steps.push(gen_wstep(&mut rng, 1, &w));
+        }
+        // a follower that was up before: half of these histories publish something while it is still there and remove it
+        // after it has gone (what the snapshot it receives later no longer contains)
+        let mut rr = Rng::derive(seed, "C08.removed", 0);
+        if cfg.scenario == 1 && rr.chance(0.5) {
+            cfg.before = cfg.before.max(2);
+            let (t, g, d) = (rr.below(3) as u8, rr.below(2) as u8, rr.below(5) as u8);
+            steps.insert(0, WStep::CfgSet { node: 1, t, g, d, size: 10, same: false, typ: 1, desc: 1 });
+            let at = (cfg.before + 1 + rr.below(5) as usize).min(steps.len());
+            steps.insert(at, WStep::CfgDel { node: 1, t, g, d });
         }
         json!({"check": "C08", "seed": seed, "cfg": cfg, "steps": steps})
     }
